@@ -247,7 +247,11 @@ fn run_decoders(ctx: &mut Ctx, lit: &[u8], pre: usize, post: usize, label: &str)
         Some(Err(e)) => es(e),
         None => Got::NoStr,
     };
-    verdict(ctx, "to_object_iter key", g, &strict, true, false);
+    // the iterator looks at one member at a time: a "literal" that is not one token (an inner quote)
+    // may begin with a complete `"key":value` member, which it rightly yields - no expectation then
+    if token_ok || !matches!(g, Got::Str(..)) {
+        verdict(ctx, "to_object_iter key", g, &strict, true, false);
+    }
     // skip-only decoders of the unchecked APIs (well-formed literals only): the literal is a
     // skipped sibling / the returned value, with only a few bytes of input after it
     if strict.is_some() && utf8 {
